@@ -195,7 +195,7 @@ func (c *GridCase) applyWindow(cm *Cmd) {
 
 func (gridSim) Run(e *Env, ci interface{}) {
 	c := ci.(*GridCase)
-	if !c.Layout.Valid() || c.Clock0 < 946684800 || c.Clock0 > math.MaxInt32-400*86400-10 || len(c.Files) > 20 {
+	if !c.Layout.Valid() || c.Clock0 < 946684800 || c.Clock0 > math.MaxUint32-3*400*86400 || len(c.Files) > 20 {
 		e.Skip("invalid-case")
 		return
 	}
